@@ -164,7 +164,7 @@ CLAIMED = {
                 "the generated fact 'sizes are computed arithmetically and tested before any run is built' is a hard reflexivity obligation, and for the former order a witness is proved). Closed under the global context. Model vs implementation compared on thousands of specs (incl. csv/json/yaml/ndjson sources) "
                 "every run; giant products run in a resource-limited subprocess. The specification as written: Model/Loader.v (_parse_run_space_block with its defaults read from the source, hard "
                 "obligations that they are the documented ones and those of schema.py) reads back every specification written in full or with all defaulted members left out "
-                "(C08_written_specification_is_read_back); 300 raw blocks per run are parsed by the implementation and read by the model inside Coq.",
+                "(C08_written_specification_is_read_back); 300 raw blocks per run are parsed by the implementation and read by the model inside Coq. Columns built from the ROWS of a source are aligned with the rows, rows that cannot be aligned are rejected (C08_source_rows_aligned over Model/Rows.v; generated fact rows_checked, hard obligation; refuted_when for the loader without the length test; 300 row files per run compared inside Coq).",
         "note": "Model coq/Model/RunSpace.v; file parsing is cross-checked not modelled; the cost twin is tied to the code through the generated evaluation-order fact and the giant stream.",
         "technique": "Coq proof over executable model + generated facts + differential correspondence + resource-limited giants",
         "design": "DESIGN.md section 6, C08",
